@@ -252,6 +252,21 @@ let () =
       let decls = rd () in let final = rd () in
       Printf.printf "C %s %s\n" tag (if valid_codes decls final then "ok" else "bad");
       loop ()
+    | Some "L" ->
+      (* L tag hex : Lexer.lex on the bytes; one line per token: kind value_hex, then the tail behaviour *)
+      let tag = (match next () with Some s -> s | None -> failwith "tag") in
+      let src = (match next () with Some s -> bytes_of_hex s | None -> failwith "eof") in
+      let kind_name = function
+        | LxError -> "Error" | LxIdentifier -> "Identifier" | LxNumber -> "Number" | LxSection -> "Section" | LxCodeQuote -> "CodeQuote"
+        | LxActionQuote -> "ActionQuote" | LxEOF -> "EOF" | LxType -> "TypeDirective" | LxToken -> "TokenDirective" | LxUnion -> "UnionDirective"
+        | LxLeft -> "LeftAssoc" | LxRight -> "RightAssoc" | LxNone -> "NoneAssoc" | LxPrec -> "PrecDirective" | LxPrecedence -> "Precedence"
+        | LxStart -> "StartDirective" | LxActionSelf -> "ActionSelf" | LxActionN -> "ActionN" | LxActionAccept -> "ActionAccept"
+        | LxActionEnd -> "ActionEnd" | LxOr -> "RuleOR" | LxDefine -> "RuleDefine" | LxEnd -> "RuleEnd" | LxLAngle -> "LeftAngleBracket"
+        | LxRAngle -> "RightAngleBracket" | LxChar -> "Charater" | LxString -> "StringKind" | LxFuel -> "FUEL" in
+      let (ts, tl) = lex src in
+      List.iter (fun t -> Printf.printf "L %s tok %s %s\n" tag (kind_name t.t_kind) (hex_of_bytes t.t_value)) ts;
+      Printf.printf "L %s tail %s\n" tag (match tl with Closed -> "closed" | ErrorForEver -> "error");
+      loop ()
     | Some "M" ->
       (* M tag rows cols cells... : pack a matrix, print unpack(pack) and the lookups *)
       let tag = (match next () with Some s -> s | None -> failwith "tag") in
